@@ -379,6 +379,13 @@ def gen_plan(uberjob, rng, MemStore):
             if rng.random() < 0.12:
                 nd = plan.lit(rng.randint(10, 20))
                 text.append("n%d = lit in %r" % (i, sc))
+            elif nodes and rng.random() < 0.15:
+                # a node made by hand through the public low-level uberjob.graph API: its stack_frame keeps the documented default, None
+                from uberjob.graph import Call as _Call, PositionalArg as _Pos
+                nd = _Call(mk(i), scope=tuple(sc))
+                plan.graph.add_node(nd)
+                plan.graph.add_edge(rng.choice(nodes), nd, _Pos(0))
+                text.append("n%d = hand-made Call (stack_frame None) in %r" % (i, sc))
             else:
                 nd = plan.call(mk(i), *pos, **kw)
                 text.append("n%d = call(%d pos, %d kw) in %r" % (i, len(pos), len(kw), sc))
